@@ -40,6 +40,10 @@ LEVEL = {
          "65 exact curve points per easing, tolerance 2e-4; laws on a 1/1024 grid + 2^-k neighbourhoods; open known findings listed in known_findings.json", TECH % ("", " and by TLC validating logs of the real functions (leg B)")),
  "C14": ("model_checking", "6 C14", "Laws model-checked on the exact integer model for all 8-bit pairs; every recorded result of the real lerp for all numeric types (exact values, scaled wide values, f32 neighbours of 0, 1/2 and 1, mixed magnitudes) is validated by TLC; panics are data and rejected.",
          "see assumptions in the evidence: exactness rule tied to f32 representability; Quat not claimed", TECH % ("", " and by TLC validating logs of the real functions (leg B)")),
+ "C15": ("model_checking", "6 C15", "TLC generates sentences of the timeline! grammar with their documented Reading (invariant under reordering) and predictions; the real macro compiles every one; macro-built == builder twin bit for bit (metadata, values), == the spec's predictions, merged lists == MergedTimeline::of(twins); one ill-formed variant per class must be rejected by rustc.",
+         "argument alphabet of MC_Grammar.tla; ms / half-percent grids; compile-time rejection is rustc's verdict", TECH % ("", "")),
+ "C16": ("model_checking", "6 C16", "TLC generates animator! blocks, their Reading as an Animator.tla configuration and a 30-step history with predicted observations; the real macro compiles every block; macro-built animator == builder twin bit for bit after every operation, == the spec's predictions.",
+         "alphabet of MC_AnimGrammar.tla; blocks inside C04's domain", TECH % ("", "")),
 }
 NA = {}
 for i in range(1, 21):
